@@ -767,6 +767,14 @@ def sorted_seq(ex, q):
 def seq_sum(ex, q):
     """sum over a sequence: the uninterpreted, axiomatised SumRange (see hints SUM)."""
     (a,) = arrs_of(q)
+    if a.sort().range() == z3.BoolSort():
+        # sum of truth values: True counts 1
+        q = ex.materialize(q)
+        (a,) = arrs_of(q)
+        m = z3.Const(fresh_name("b2i"), z3.ArraySort(z3.IntSort(), z3.IntSort()))
+        k = z3.Const(fresh_name("bk"), z3.IntSort())
+        ex.assume(V.qforall([k], z3.Select(m, k) == z3.If(z3.Select(a, k), 1, 0), patterns=[z3.Select(m, k)]))
+        a = m
     if a.sort().range() == z3.IntSort():
         return ex.prop.theory.sum_int(a, I(0), q.n)
     return ex.prop.theory.sum_real(a, I(0), q.n)
@@ -846,6 +854,17 @@ def call_builtin_method(ex, recv, name, args, kw, node):
             new = mk_seq(recv.shape, arrs, recv.n - 1)
             new.removed_at = (recv, p)
             return rebind(new)
+        if name == "index" and len(args) == 1:
+            # list.index(x): the FIRST position holding x; ValueError if there is none
+            (x,) = args
+            recv = ex.materialize(recv)
+            if not ex.decide(ex.contains(recv, x, node)):
+                raise RaiseEx("ValueError", ex.cur_line)
+            p = z3.Const(fresh_name("ix.at"), z3.IntSort())
+            i = z3.Const(fresh_name("ix.i"), z3.IntSort())
+            ex.assume(z3.And(p >= 0, p < recv.n, ex.equal(recv.get(p), x)))
+            ex.assume(V.qforall([i], z3.Implies(z3.And(i >= 0, i < p), z3.Not(ex.equal(recv.get(i), x)))))
+            return p
         if name == "pop" and not args:
             if not ex.decide(recv.n > 0):
                 raise RaiseEx("IndexError", ex.cur_line)
